@@ -129,7 +129,9 @@ func genC14(r *mrand.Rand, i int) c14Case {
 		c.Iter = 1
 	}
 	c.Nonce = gen.Pick(r, []string{"3rfcNHYJY1ZVvWVs7j", "%hvYDpWUa2RaTCAfuxFIlj)hNlF$k0", "x", "srv=nonce+with/base64==", strings.Repeat("N", 80), "~!@#$%^&*()_+"})
-	c.Challenge = gen.Pick(r, []string{"<1896.697170952@postoffice.example.net>", "<x@y>", "challenge with blanks", strings.Repeat("c", 300), "ünï"})
+	c.Challenge = gen.Pick(r, []string{"<1896.697170952@postoffice.example.net>", "<x@y>", "challenge with blanks", strings.Repeat("c", 300), "ünï",
+		// the challenge is an opaque octet string: white space at its ends, control characters and NUL belong to it
+		"<id@host>\r\n", " <id@host>", "\tnonce\t", "<id@host>\u00a0", "\x0c<id@host> ", "a\x00b", "\n", "  "})
 	c.TLSVersion = gen.Pick(r, []string{"1.2", "1.3"})
 	if !isPlus(c.Mech) && r.Intn(2) == 0 && (isScram(c.Mech) || c.Mech == "CRAM-MD5" || c.Mech == "XOAUTH2") {
 		c.TLSVersion = "none"
